@@ -48,6 +48,7 @@ HAZARDS = [
     # dead code
     'simp_cond_int_quot', 'simp_cond_real_literal', 'elseif_false_no_else', 'elseif_true_body_starts_with_if',
     'elseif_true_body_starts_with_block_if', 'elseif_false_else_starts_with_if', 'select_literal_range', 'select_logical',
+    'select_body_emptied',
     # unused vars / args
     'local_kind_param', 'param_in_initializer', 'dummy_only_in_print', 'local_only_in_internal',
     'dummy_only_in_internal', 'optional_present', 'dummy_only_in_dimension', 'char_len_local', 'sched_both', 'uvars_scalars_with_loops', 'nested_fun_call',
@@ -575,7 +576,12 @@ class CPGen:
             if k == 0 and rng.random() < 0.3:
                 v = f'{v}, {rng.choice([7, 8])}'
             out.append(f'{ind}case ({v})')
-            out += self.block(ind + '  ', depth - 1, rng.randint(1, 2), 'nok')
+            blk = self.block(ind + '  ', depth - 1, rng.randint(1, 2), 'nok')
+            # known finding deadcode:select-case-body-emptied-by-pruning-shifts-later-bodies: outside its hazard slice
+            # every CASE body holds a plain statement at its top level (it can never be pruned to nothing)
+            if not any(re.match(rf'{ind}  (call |[a-z][a-z0-9%]*(\(.*?\))? = )', l) for l in blk):
+                blk = self.tap(ind + '  ') + blk
+            out += blk
         if rng.random() < 0.7:
             out.append(f'{ind}case default')
             out += self.block(ind + '  ', depth - 1, rng.randint(1, 2), 'nok')
@@ -832,6 +838,9 @@ class CPGen:
         elif hz == 'select_literal_range':
             s = ['hz1 = k1', 'select case (3)', 'case (1)', '  hz1 = hz1 + 1', 'case (2:5)', '  hz1 = hz1 + 2', 'case default',
                  '  hz1 = hz1 + 4', 'end select', f'oi({T1}) = hz1']
+        elif hz == 'select_body_emptied':
+            s = ['hz1 = k1', 'select case (mod(abs(k1), 3))', 'case (0)', '  if (.false.) hz1 = hz1 + 1', 'case (1)',
+                 '  hz1 = hz1 + 2', 'case (2)', '  hz1 = hz1 + 4', 'end select', f'oi({T1}) = hz1']
         elif hz == 'select_logical':
             s = ['hz1 = k1', 'select case (.false.)', 'case (.true.)', '  hz1 = hz1 + 1', 'case (.false.)', '  hz1 = hz1 + 2',
                  'end select', f'oi({T1}) = hz1']
